@@ -139,7 +139,7 @@ add(Contract(
     result="bool", assume_only=True,
     requires=wf() + [("range", "0 <= startLine and startLine < endLine and endLine <= state.lineMax")],
     modifies=["state.line", "state.parentType", "state.tight"],
-    ensures=[("silent-pure", "implies(silent, state.line == old(state.line))"),
+    ensures=[("silent-pure", "implies(silent, state.line == old(state.line) and state.tight == old(state.tight))"),
              ("fail-pure", "implies(not result, state.line == old(state.line))"),
              ("progress", "implies(result and not silent, old(startLine) < state.line and state.line <= state.lineMax)")],
 ))
@@ -305,11 +305,18 @@ REGISTRY["markdown_it.ruler.Ruler.getRules"].ensures.append(("fallback-last", "l
 add(Contract(
     PB + "tokenize", params={"self": "obj:ParserBlock", "state": "obj:StateBlock", "startLine": "int", "endLine": "int"}, props=["C01", "C20", "C03"],
     requires=wf() + [("range", "0 <= startLine and endLine <= state.lineMax"), ("nest", "state.md.options.maxNesting >= 1")],
+    modifies=["state.line", "state.tokens", "state.tight", "state.parentType"],
     at=[("call:rule", "rule-under-nesting-cap", "state.level < state.md.options.maxNesting", ["C20", "C01"]),
         ("call:rule", "rule-on-nonempty-line", "line < endLine and state.bMarks[line] + state.tShift[line] < state.eMarks[line] and state.sCount[line] >= state.blkIndent", ["C03", "C01"])],
-    ensures=[("level", "state.level == old(state.level)", ["C02", "C07"])],
+    ensures=[("level", "state.level == old(state.level)", ["C02", "C07"]),
+             ("context-restored", "state.lineMax == old(state.lineMax) and state.blkIndent == old(state.blkIndent)", ["C07", "C06"]),
+             ("line-lo", "startLine >= endLine or state.line >= startLine", ["C03", "C01"]),
+             ("progress", "implies(startLine < endLine and (state.bMarks[startLine] + state.tShift[startLine] >= state.eMarks[startLine] or state.sCount[startLine] >= state.blkIndent), "
+                          "state.line > startLine)", ["C01", "C03", "C20"]),
+             ("line-hi", "startLine >= endLine or state.line <= state.lineMax", ["C03"])],
     loops={0: {"types": {"rule": "none", "hasEmptyLines": "bool"},
-               "inv": [("line-lo", "line >= startLine"), ("lineMax", "state.lineMax == old(state.lineMax) and state.blkIndent == old(state.blkIndent)"),
+               "inv": [("line-lo", "line >= startLine"), ("state-line", "line == startLine or state.line == line"),
+                       ("line-hi", "line == startLine or line <= state.lineMax"), ("lineMax", "state.lineMax == old(state.lineMax) and state.blkIndent == old(state.blkIndent)"),
                        ("level", "state.level == old(state.level)"), ("maxNesting", "maxNesting == state.md.options.maxNesting"), ("rules", "len(rules) >= 1 and AlwaysMatches(rules[len(rules) - 1])")],
                "dec": "endLine - line"},
            1: {"types": {"rule": "none"}, "let": {},
@@ -386,7 +393,7 @@ add(Contract(
     LM + "skipBulletListMarker", params={"state": "obj:StateBlock", "startLine": "int"}, result="int", props=["C01", "C08"],
     requires=wf() + [("line", "0 <= startLine and startLine < len(state.bMarks)")],
     ensures=[
-        ("fail-or-after-marker", f"result == -1 or result == {PM} + 1", ["C01", "C08"]),
+        ("fail-or-after-marker", f"result == -1 or (result == {PM} + 1 and {PM} < len(state.src))", ["C01", "C08"]),
         ("marker", f"implies(result >= 0, state.src[{PM}] == '*' or state.src[{PM}] == '-' or state.src[{PM}] == '+')", ["C08"]),
         ("blank-after", "implies(result >= 0 and result < state.eMarks[startLine], state.src[result] == ' ' or state.src[result] == '\\t')", ["C08"]),
     ],
